@@ -104,6 +104,10 @@ class PartitionLog:
                         if s == seq and c == count:
                             # replay of a retained batch: success with the original offset
                             self.cluster.duplicates_absorbed += 1
+                            if getattr(self.cluster, "duplicates_answered_with_46", False):
+                                # the protocol's other documented answer to a replayed batch (a broker that no
+                                # longer holds the batch's metadata): DUPLICATE_SEQUENCE_NUMBER, no offset
+                                return 46, -1, -1
                             return 0, off, ts
                     if st["last"]:
                         ls, lc = st["last"][-1][0], st["last"][-1][1]
@@ -910,7 +914,11 @@ class Cluster:
         if k == 3:
             return self.metadata(req, v)
         if k == 0:
-            return self.produce(node, req, v)
+            resp = self.produce(node, req, v)
+            d = getattr(self, "produce_delay", {}).get(node, 0.0)
+            if d:
+                await asyncio.sleep(d)  # slow leader: appended, the reply is held back for a while
+            return resp
         if k == 1:
             resp = self.fetch(node, req, v)
             if not self._fetch_has_data(resp, v):
